@@ -49,6 +49,17 @@ let pr_optf (v : fexpr option) : unit =
   | None -> Buffer.add_string buf "(n)"
   | Some e -> Buffer.add_string buf "(n f"; Buffer.add_string buf (string_of_int (int_of_z (fbits e))); Buffer.add_char buf ')'
 
+(* `exact` mode (fourth argument): a scaled quantity is printed as the exact rational its expression denotes, coded as
+   num * 2^21 + den (den < 2^21), instead of its binary32 bits — the orchestrator uses it to evaluate C10's accuracy
+   clause itself when the implementation's bits differ from the model's *)
+let rec rational (e : fexpr) : int * int =
+  match e with
+  | FOfInt z -> (int_of_z z, 1)
+  | FDiv (a, k) -> let (n, d) = rational a in (n, d * int_of_z k)
+  | FMul (a, k) -> let (n, d) = rational a in (n * int_of_z k, d)
+let fexact (e : fexpr) : z = let (n, d) = rational e in z_of_int (n * 2097152 + d)
+let fbits = if Array.length Sys.argv > 3 && Sys.argv.(3) = "exact" then fexact else fbits
+
 let () =
   let c = match Sys.argv.(1) with "std" -> Std | "alloc" -> Alloc | "none" -> NoAlloc | _ -> failwith "cfg" in
   let q = match Sys.argv.(2) with "asis" -> quirks_asis | "off" -> quirks_off
